@@ -22,6 +22,7 @@ import Driver.C14
 import Driver.C04
 import Driver.C03
 import Driver.C02
+import Driver.C17
 
 open Driver
 
@@ -46,6 +47,7 @@ def dispatch (prop : String) (toks : List String) : String :=
   | "C04" => Driver.C04.handle toks
   | "C03" => Driver.C03.handle toks
   | "C02" => Driver.C02.handle toks
+  | "C17" => Driver.C17.handle toks
   | _ => "bad-prop"
 
 partial def loop (hin hout : IO.FS.Stream) : IO Unit := do
